@@ -230,6 +230,44 @@ def check_shared_defaults(ctx):
         ctx.ok('C01.R6', 'kmip/core/**', 'no constructor among %d has a mutable default argument' % n_cls)
 
 
+def check_truthiness(ctx, ix):
+    """C01.R7: codec presence tests are truthiness tests, so every encodable class must be truthy for every value."""
+    from ..astutil import classes as classes_of
+    ctx.rule('C01.R7', 'the codec decides "field present" by truthiness (`if self._field:`); therefore no encodable class (subclass of primitives.Base) defines __len__, __bool__ or __nonzero__: an empty/zero value would otherwise count as absent, be dropped by writers and refused by readers')
+    n_tests = 0
+    for rel in ctx.src.modules('kmip/core'):
+        t = ctx.src.tree(rel)
+        for n in ast.walk(t):
+            if isinstance(n, ast.If):
+                tt = n.test
+                if isinstance(tt, ast.BoolOp):
+                    cands = tt.values
+                else:
+                    cands = [tt]
+                for c in cands:
+                    if is_self_attr(c):
+                        n_tests += 1
+    ctx.count('truthiness_presence_tests', n_tests, 200)
+    n_cls = 0
+    for rel in ctx.src.modules('kmip/core'):
+        t = ctx.src.tree(rel)
+        for q, c in classes_of(t).items():
+            ref = (rel, q)
+            try:
+                chain = ix.mro(ref)
+            except Exception:
+                continue
+            if not any(r[0].endswith('primitives.py') and r[1] == 'Base' for r in chain):
+                continue
+            n_cls += 1
+            bad = [f.name for f in c.body if isinstance(f, ast.FunctionDef) and f.name in ('__len__', '__bool__', '__nonzero__')]
+            if bad:
+                ctx.fail('C01.R7', '%s|%s' % (q, ','.join(bad)), '%s:%s %s' % (rel, c.lineno, q),
+                         '%s defines %s: instances can be falsy, and the %d truthiness presence tests of the codec then treat such a value (empty, zero) as an absent field' % (q, ', '.join(bad), n_tests))
+    ctx.count('encodable_classes', n_cls, 150)
+    ctx.ok('C01.R7', 'kmip/core/**', '%d encodable classes scanned for truthiness overrides; %d truthiness presence tests rely on them' % (n_cls, n_tests))
+
+
 def run(ctx):
     src = ctx.src
     sch = Schema(src)
@@ -382,6 +420,7 @@ def run(ctx):
 
     check_biginteger_sign_room(ctx, pt)
     check_shared_defaults(ctx)
+    check_truthiness(ctx, sch.ix)
 
     # ---------------- R4 factories
     fm = FactoryModel(src, sch.ix)
